@@ -174,6 +174,14 @@ Theorem C20_filter_lines_spec :
 Proof. exact filter_lines_spec. Qed.
 Print Assumptions C20_filter_lines_spec.
 
+(* what is logged after any point of a history is what the rule lets through under the filter set
+   by the commands before that point - whatever happened to the lines before it (e.g. lines lost
+   while the log file could not be written) *)
+Theorem C20_filter_output_splits :
+  forall mt f e1 e2, (frun mt f (e1 ++ e2) = frun mt f e1 ++ frun mt (fstate f e1) e2)%list.
+Proof. exact frun_app. Qed.
+Print Assumptions C20_filter_output_splits.
+
 Theorem C20_reset_clears : forall mt acts line, pass mt (ffinal (acts ++ [Reset])%list) line = true.
 Proof. exact reset_clears. Qed.
 Print Assumptions C20_reset_clears.
